@@ -58,20 +58,25 @@ Definition run (inp : list Z) : list Z :=
       match pall (calls <- plist (ppair pZ pbool) ;; pts <- plist ppt ;; pret (calls, pts)) rest with
       | Some (calls, pts) => 0 :: flat_map (fun jn => run_mode (Z.to_nat Lz) (fst jn) (snd jn) pts) calls
       | None => emalformed end
-  | 7 :: ak :: nz :: rest =>        (* zernike / zernike_basis entry: argument branch, default-coordinate modes *)
+  | 7 :: ak :: nz :: kind :: vec :: rest =>   (* zernike / zernike_basis entry: argument branch, shape, default-coordinate modes *)
       match zargs_of ak, pall (modes <- plist pZ ;; mask <- parrQ ;; pret (modes, mask)) rest with
       | Some a, Some (modes, mask) =>
+          let shape := zernike_result_shape (negb (kind =? 0)) (Z.of_nat (length modes)) (nr mask) (nc mask) (negb (vec =? 0)) in
           match zernike_branch a with
           | Err e => [1; errcode e]
           | Ok false =>                        (* caller-supplied coordinates: values by op 3 / op 6 *)
-              match modes_valid modes with Ok _ => [0; 0] | Err e => [1; errcode e] end
+              match modes_valid modes with Ok _ => 0 :: 0 :: elist (fun z => [z]) shape | Err e => [1; errcode e] end
           | Ok true =>
               match zernike_basis_default mask modes (negb (nz =? 0)) with
-              | Ok ds => 0 :: 1 :: elist (edm (nr mask) (nc mask)) ds
+              | Ok ds => 0 :: 1 :: elist (fun z => [z]) shape ++ elist (edm (nr mask) (nc mask)) ds
               | Err e => [1; errcode e]
               end
           end
       | _, _ => emalformed end
+  | 8 :: rest =>                    (* zernike_coordinates(mask, shift=(sr, sc)) *)
+      match pall (sr <- pQ ;; sc <- pQ ;; mask <- parrQ ;; pret (sr, sc, mask)) rest with
+      | Some (sr, sc, mask) => eresult (ecoords (nr mask) (nc mask)) (zernike_coordinates_shift mask sr sc)
+      | None => emalformed end
   | _ => emalformed
   end.
 
